@@ -1,6 +1,9 @@
 package rt
 
-import "fmt"
+import (
+	"fmt"
+	"strconv"
+)
 
 // Chan is the simulated channel; a nil *Chan is the nil channel.
 type Chan[T any] struct{ core chanCore }
@@ -259,7 +262,22 @@ func Log(kind string, args ...any) {
 	}
 	t := x.cur
 	t.Log = append(t.Log, Event{Time: x.Now, Kind: kind, Args: args})
-	t.mix(fmt.Sprint("L", x.Now, kind, args))
+	var buf [64]byte
+	b := append(buf[:0], 'L')
+	b = strconv.AppendInt(b, x.Now, 10)
+	b = append(b, kind...)
+	for _, a := range args {
+		b = append(b, ' ')
+		switch v := a.(type) {
+		case int:
+			b = strconv.AppendInt(b, int64(v), 10)
+		case string:
+			b = append(b, v...)
+		default:
+			b = append(b, repr(a)...)
+		}
+	}
+	t.mixb(b)
 	if x.Trace != nil {
 		x.tracef("    log %s: %s %v\n", t.ID, kind, args)
 	}
